@@ -487,6 +487,12 @@ void World::setup_from_header() {
 					if (hs == "md5") salt = "$1$" + sch(8) + "$"; else if (hs == "sha256") salt = "$5$" + sch(8) + "$"; else if (hs == "sha512") salt = "$6$" + sch(8) + "$"; else salt = sch(2);
 					const char *enc = crypt(pw.c_str(), salt.c_str());
 					o.set("password", JV::str(enc ? enc : "*"));
+					if (u.has("locked")) {
+						// no password authenticates against this entry (the generator never uses the value of "password" of such a user)
+						std::string lk = u.gets("locked");
+						o.put("password", JV::str(lk == "salt" ? salt : lk));
+						mu.password = std::string("\x01no password matches\x01") + kv.first;
+					}
 				} else mu.has_password = false;
 				if (!u.getb("noauth")) {
 					JV auth = JV::obj();
